@@ -225,7 +225,7 @@ def _run_replay_chunk(cases, workdir, name, env, timeout_ms, binary="replay"):
             for c in cases]
 
 
-def replay(cases, workdir, env_extra=None, jobs=12, timeout_ms=10000, name="replay", binary="replay"):
+def replay(cases, workdir, env_extra=None, jobs=12, timeout_ms=10000, name="replay", binary="replay", isolate=False):
     """Replay cases on the real engine, in `jobs` parallel subprocesses."""
     from concurrent.futures import ThreadPoolExecutor
     os.makedirs(workdir, exist_ok=True)
@@ -243,8 +243,12 @@ def replay(cases, workdir, env_extra=None, jobs=12, timeout_ms=10000, name="repl
         env.update(env_extra)
     if not cases:
         return []
-    jobs = max(1, min(jobs, (len(cases) + 19) // 20))
-    chunks = [cases[i::jobs] for i in range(jobs)]
+    if isolate:
+        # one process per case (cases whose threads / process-global sensors would leak into the next case)
+        chunks = [[c] for c in cases]
+    else:
+        jobs = max(1, min(jobs, (len(cases) + 19) // 20))
+        chunks = [cases[i::jobs] for i in range(jobs)]
     t0 = time.time()
     with ThreadPoolExecutor(max_workers=jobs) as ex:
         futs = [ex.submit(_run_replay_chunk, ch, workdir, f"{name}.{i}", env, timeout_ms, binary)
@@ -295,6 +299,10 @@ def match_finding(prop, case, verdict, findings):
         if f.get("status") != "known" or prop not in f.get("properties", [f.get("property")]):
             continue
         m = f.get("match", {})
+        # only textual signatures can attribute a replayed case; findings identified by a model defect
+        # (schedules, traces) are attributed by the check that owns the model, never here
+        if not any(k in m for k in ("src_regex", "tag_regex", "why_regex")):
+            continue
         if "src_regex" in m and not re.search(m["src_regex"], text, re.S):
             continue
         if "tag_regex" in m and not re.search(m["tag_regex"], case.get("tag", "") if case else ""):
